@@ -9,7 +9,7 @@ import ast
 
 from ..model import walk_shallow, call_name, is_self_attr, dotted_name, parent, ancestors, enclosing_function
 from ..util import (has_call, find_calls, assigned_value, const_str, unparse, kw, arg_or_kw, enclosing_stmt,
-                    guards_of, call_tail, control_ancestors)
+                    guards_of, call_tail, control_ancestors, name_bound, bound_names)
 from .. import mutate as M
 from . import c04
 
@@ -173,23 +173,25 @@ def r5_missing(ctx):
     loops = [x for x in walk_shallow(fn) if isinstance(x, ast.For) and isinstance(x.iter, ast.Call) and call_name(x.iter) == "chain"]
     ctx.floor("C11.R5", "apply loop in Impute.filter", len(loops), 1)
     lp = loops[0]
-    arms = {}
-    for x in walk_shallow(lp):
-        if isinstance(x, ast.If) and unparse(x.test) in ("is_dense", "is_sparse", "is_value") and x in _chain(lp):
-            arms[unparse(x.test)] = x
+    IMPS = set(bound_names(fn, lambda v: has_call(v, "_get_imputation") or (isinstance(v, ast.Dict) and not v.keys)))
+    arms = _chain(lp)
     ctx.floor("C11.R5", "container arms of the apply loop", len(arms), 3)
-    for arm, node in sorted(arms.items()):
-        stores = [s for s in node.body for s in walk_shallow(s) if isinstance(s, ast.Assign) and isinstance(s.targets[0], ast.Subscript)
-                  and ("imputations" in unparse(s.value))]
+    for k, node in enumerate(arms):
+        arm = ("dense", "sparse", "scalar")[k] if k < 3 else f"arm{k}"
+        stores = [x for st in node.body for x in walk_shallow(st) if isinstance(x, ast.Assign) and isinstance(x.targets[0], ast.Subscript)
+                  and ({n.id for n in ast.walk(x.value) if isinstance(n, ast.Name)} & IMPS)]
         okk = bool(stores)
-        for s in stores:
-            gs = [unparse(t) for t, p in guards_of(s, node) if p]
-            okk = okk and any(g.split(" and ")[0].endswith(" is None") for g in gs)
+        for s_ in stores:
+            gs = [t for t, p in guards_of(s_, node) if p]
+            firsts = [unparse(g.values[0]) if isinstance(g, ast.BoolOp) and isinstance(g.op, ast.And) else unparse(g) for g in gs]
+            okk = okk and any(f.endswith(" is None") for f in firsts)
         ctx.ob("C11.R5", EF, "Impute.filter", node, f"{arm}: a value is replaced only when it `is None`", okk, stmt=f"replace guard {arm}")
-        # a non-missing value is never overwritten: no store of imputations outside such a guard (checked above), and the
-        # indicator flag is set only together with a replacement
-        flags = [s for s in node.body for s in walk_shallow(s) if isinstance(s, ast.Assign) and unparse(s.value) == "1" and "is_missing" in unparse(s.targets[0])]
-        okf = all(any(unparse(t).split(" and ")[0].endswith(" is None") and p for t, p in guards_of(s, node)) for s in flags)
+        flags = [x for st in node.body for x in walk_shallow(st) if isinstance(x, ast.Assign) and isinstance(x.targets[0], ast.Subscript) and unparse(x.value) == "1"]
+        okf = True
+        for f in flags:
+            gs = [t for t, p in guards_of(f, node) if p]
+            firsts = [unparse(g.values[0]) if isinstance(g, ast.BoolOp) and isinstance(g.op, ast.And) else unparse(g) for g in gs]
+            okf = okf and any(x.endswith(" is None") for x in firsts)
         ctx.ob("C11.R5", EF, "Impute.filter", node, f"{arm}: the missingness indicator is raised only for replaced values", okf, stmt=f"indicator guard {arm}")
 
 
@@ -212,12 +214,14 @@ def r6_statistic_table(ctx):
     got = {}
     for x in walk_shallow(sc):
         if isinstance(x, ast.If) and isinstance(x.test, ast.Compare) and const_str(x.test.comparators[0]):
-            den = [unparse(a.value) for a in x.body if isinstance(a, ast.Assign) and "den" in unparse(a.targets[0])]
+            den = [unparse(a.value) for a in x.body if isinstance(a, ast.Assign) and "values" in unparse(a.value)]
             if den:
                 got[const_str(x.test.comparators[0])] = den[0]
     ctx.ob("C11.R6", EF, "Scale._scale_value", sc, "scale keywords map to max-min / stdev / iqr / max|x+shift| of the values (one argument each)", got == want_scale, detail={"table": got}, stmt="scale table")
-    rets = [unparse(r.value) for r in walk_shallow(sc) if isinstance(r, ast.Return)]
-    ctx.ob("C11.R6", EF, "Scale._scale_value", sc, "the scale factor is numerator/denominator, 'constant column' guarded", len(rets) == 1 and "scale_num / scale_den" in rets[0] and "scale_den <" in rets[0], stmt="scale quotient")
+    rets = [r.value for r in walk_shallow(sc) if isinstance(r, ast.Return)]
+    okq = len(rets) == 1 and isinstance(rets[0], ast.IfExp) and isinstance(rets[0].orelse, ast.BinOp) and isinstance(rets[0].orelse.op, ast.Div) and \
+        isinstance(rets[0].test, ast.Compare) and unparse(rets[0].test.left) == unparse(rets[0].orelse.right) and unparse(rets[0].body) == unparse(rets[0].orelse.left)
+    ctx.ob("C11.R6", EF, "Scale._scale_value", sc, "the scale factor is numerator/denominator, 'constant column' guarded", okq, stmt="scale quotient")
     gi = ctx.fn(EF, "Impute._get_imputation")
     got = {}
     for x in walk_shallow(gi):
@@ -228,8 +232,11 @@ def r6_statistic_table(ctx):
     want = {"mean": "sum(values) / len(values)", "median": "median(values)", "mode": "mode(values)"}
     ctx.ob("C11.R6", EF, "Impute._get_imputation", gi, "impute keywords map to mean / median / mode of the non-missing values", got == want, detail={"table": got}, stmt="impute table")
     gs = ctx.fn(EF, "Scale._get_shift_and_scale")
-    src = unparse(gs)
-    ok = "shift = self._shift_value(values)" in src and "scale = self._scale_value(values, shift)" in src and "values = [v for v in values if v is not None]" in src
+    SH = name_bound(gs, lambda v: unparse(v) == "self._shift_value(values)", "shift")
+    SC = name_bound(gs, lambda v: unparse(v) == f"self._scale_value(values, {SH})", "scale")
+    flt = [x for x in walk_shallow(gs) if isinstance(x, ast.Assign) and unparse(x.targets[0]) == "values" and isinstance(x.value, ast.ListComp)
+           and [unparse(i) for i in x.value.generators[0].ifs] == [f"{unparse(x.value.generators[0].target)} is not None"]]
+    ok = bool(assigned_value(gs, SH)) and bool(assigned_value(gs, SC)) and len(flt) == 1
     ctx.ob("C11.R6", EF, "Scale._get_shift_and_scale", gs, "shift and scale are computed from the same non-missing values, scale knowing the shift", ok, stmt="shift then scale")
 
 
@@ -238,7 +245,10 @@ def r7_alignment(ctx):
                        "order, that the results are zipped/compressed with")
     fn = ctx.fn(EF, "Impute.filter")
     from ..util import name_bound
-    IMP = name_bound(fn, lambda v: isinstance(v, ast.ListComp) and "enumerate(first['context'])" in unparse(v), "imputable_cols")
+    peek = [x for x in walk_shallow(fn) if isinstance(x, ast.Assign) and isinstance(x.targets[0], ast.Tuple) and has_call(x.value, "peek_first")]
+    FIRST = unparse(peek[0].targets[0].elts[0]) if peek else "first"
+    IMPC = bound_names(fn, lambda v: isinstance(v, ast.ListComp) and f"enumerate({FIRST}['context'])" in unparse(v))
+    IMP = IMPC[0] if IMPC else "imputable_cols"
     UNI = None
     for x in walk_shallow(fn):
         if isinstance(x, ast.Assign) and isinstance(x.targets[0], ast.Name) and f"itemgetter(*{IMP})" in unparse(x.value):
@@ -257,12 +267,14 @@ def r7_alignment(ctx):
     sf = ctx.fn(EF, "Scale.filter")
     src = unparse(sf)
     PK = name_bound(sf, lambda v: isinstance(v, ast.Constant) and v.value is None, "potential_keys")
-    SV = name_bound(sf, lambda v: "map(self._get_shift_and_scale" in unparse(v), "scaling_vals")
+    SV = (bound_names(sf, lambda v: "map(self._get_shift_and_scale" in unparse(v)) or ["scaling_vals"])[0]
     SK = name_bound(sf, lambda v: isinstance(v, ast.Call) and call_name(v) == "compress" and unparse(v.args[0]) == PK, "scaling_keys")
     ok = f"{SK} = compress({PK}, {SV})" in src and f"{SV} = compress({SV}, {SV})" in src and src.index(f"{SK} = compress({PK}, {SV})") < src.index(f"{SV} = compress({SV}, {SV})")
     ctx.ob("C11.R7", EF, "Scale.filter", sf, "keys and (shift,scale) pairs are filtered by the same selector, keys first (before the selector is overwritten)", ok, stmt="compress keys and values alike")
-    cols = [unparse(v) for v in assigned_value(sf, name_bound(sf, lambda v: f"itemgetter(*{PK})" in unparse(v), "cols"))]
-    okc = len(cols) == 4 and all(PK in c or "fitting_contexts" in c for c in cols)
+    COLS = (bound_names(sf, lambda v: f"itemgetter(*{PK})" in unparse(v)) or ["cols"])[0]
+    FC = name_bound(sf, lambda v: "map(itemgetter('context')" in unparse(v), "fitting_contexts")
+    cols = [unparse(v) for v in assigned_value(sf, COLS)]
+    okc = len(cols) == 4 and all(PK in c or FC in c for c in cols)
     ctx.ob("C11.R7", EF, "Scale.filter", sf, "every container arm builds its columns from the key list, in key order", okc, detail={"cols": cols}, stmt="columns by key list")
     pairs = [unparse(v) for v in walk_shallow(sf) if isinstance(v, ast.Call) and call_name(v) in ("zip", "dict") and SK in unparse(v) and SV in unparse(v)]
     ctx.ob("C11.R7", EF, "Scale.filter", sf, "keys are paired with their statistics position-wise", sorted(pairs)[:2] == sorted([f"dict(zip({SK}, {SV}))", f"zip({SK}, {SV})"])[:2] or
